@@ -13,7 +13,7 @@ func runC19(c *Ctx) {
 		depth = 4
 	}
 	c.Exhaustive = true
-	c.Rule = fmt.Sprintf("all operation logs of <= %d *Self calls (Add/Remove/RemoveFiltered/Update/UpdatePolicies/Clear on p and g, with repeated and overlapping batches) applied to three real DistributedEnforcer replicas with different persist predicates (always / never / nil), each with its own recording adapter: affected values, adapter logs, listed rules, links and decisions vs the Lean model; on the implementation: every log is applied twice to each replica (the second pass must change nothing and report nothing affected), replicas agree on affected values, rules, links and decisions, only the always-replica touches its adapter, every log is run 3 times per replica for determinism; plus seeded random logs to length 30; non-trivial = a log with an affected and an unaffected call; distinct = log", depth)
+	c.Rule = fmt.Sprintf("all operation logs of <= %d *Self calls (Add/Remove/RemoveFiltered/Update/UpdatePolicies/Clear on p and g, with repeated and overlapping batches) applied to three real DistributedEnforcer replicas with different persist predicates (always / never / nil), each with its own recording adapter: affected values, adapter logs, listed rules, links and decisions vs the Lean model; on the implementation: every log is applied twice to each replica (the second pass must change nothing and report nothing affected), replicas agree on affected values, rules, links and decisions, only the always-replica touches its adapter, every log is run 3 times per replica for determinism, the third time with a dispatcher attached (which must receive nothing); updates of a rule to itself must leave the replica's memory (index included) unchanged; plus seeded random logs to length 30; non-trivial = a log with an affected and an unaffected call; distinct = log", depth)
 	P := [][]string{{"alice", "data1", "read"}, {"admin", "data2", "write"}, {"bob", "data1", "read"}}
 	G := [][]string{{"alice", "admin"}, {"bob", "admin"}}
 	mkAlpha := func(per string) []EOp {
@@ -33,8 +33,12 @@ func runC19(c *Ctx) {
 			{Kind: "dist-rmf", Persist: per, Sec: "g", PType: "g", FI: 1, Vals: []string{"admin"}},
 			{Kind: "dist-upd", Persist: per, Sec: "g", PType: "g", Rule: G[1], New: []string{"bob", "alice"}},
 			{Kind: "dist-clear", Persist: per},
+			// updates of a rule to itself: nothing may change, not even the index the next calls rely on
+			{Kind: "dist-upd", Persist: per, Sec: "p", PType: "p", Rule: P[1], New: P[1]},
+			{Kind: "dist-upd", Persist: per, Sec: "g", PType: "g", Rule: G[0], New: G[0]},
 		}
 	}
+	identity := func(o EOp) bool { return o.Kind == "dist-upd" && strings.Join(o.Rule, ",") == strings.Join(o.New, ",") }
 	probes := []EOp{{Kind: "obs", Args: []string{"pol", "p", "p"}}, {Kind: "obs", Args: []string{"pol", "g", "g"}}, {Kind: "obs", Args: []string{"adapter"}}, {Kind: "obs", Args: []string{"log"}},
 		{Kind: "haslink", PType: "g", Args: []string{"alice", "admin"}}, {Kind: "haslink", PType: "g", Args: []string{"bob", "alice"}},
 		{Kind: "enf", Req: []V{VS("alice"), VS("data2"), VS("write")}}, {Kind: "enf", Req: []V{VS("bob"), VS("data1"), VS("read")}}}
@@ -74,7 +78,11 @@ func runC19(c *Ctx) {
 				obs := s.Exec(alpha[i])
 				again := s.Exec(alpha[i])
 				_ = obs
-				if !(strings.HasPrefix(again, "A - ") || strings.HasPrefix(again, "false")) {
+				if identity(alpha[i]) {
+					if after := memoryOf(s); after != before {
+						c.Direct("an update of a rule to itself changed the replica", fmt.Sprintf("persist=%s op=%s\nbefore: %s\nafter:  %s", per, alpha[i].Line(), before, after))
+					}
+				} else if !(strings.HasPrefix(again, "A - ") || strings.HasPrefix(again, "false")) {
 					c.Direct("applying the same Self operation a second time reports affected rules", fmt.Sprintf("persist=%s op=%s second result=%s", per, alpha[i].Line(), again))
 				}
 				_ = before
@@ -88,12 +96,22 @@ func runC19(c *Ctx) {
 				s2 := StartCaseQuiet(ms, CaseOpts{})
 				d2 := newDist(ms)
 				s2.D, s2.E, s2.A = d2.D, d2.E, d2.A
+				// the second fresh replica has a dispatcher attached (as every replica of a real cluster has):
+				// *Self calls apply locally all the same and hand nothing back to it
+				var disp *nopDispatcher
+				if rep == 1 {
+					disp = &nopDispatcher{}
+					s2.D.SetDispatcher(disp)
+				}
 				var aff2 []string
 				for _, i := range idx {
 					aff2 = append(aff2, s2.Exec(alpha[i]))
 				}
 				if memoryOf(s2) != finals[ri] || strings.Join(aff2, ";") != affs[ri] {
 					c.Direct("the same operation log gives different results on a fresh replica", fmt.Sprintf("persist=%s log=%s", per, histText(pickOps(alpha, idx))))
+				}
+				if disp != nil && len(disp.calls) > 0 {
+					c.Direct("a Self operation handed work back to the dispatcher", fmt.Sprintf("persist=%s log=%s dispatcher calls=%v", per, histText(pickOps(alpha, idx)), disp.calls))
 				}
 			}
 		}
